@@ -172,6 +172,7 @@ structure St where
   probOk : Bool := true
   relaxDup : Bool := false
   badParse : Bool := false
+  rhints : List (List HopHint) := []
   srch : Option SearchInfo := none
   evs : List Ev := []
   probBits : Option Nat := none
@@ -215,6 +216,9 @@ structure St where
   metaLen : Nat := 0
   probMode : Int := 0
   samples : Nat := 0
+  invHintCases : Nat := 0
+  invChained : Nat := 0
+  invChainedRoutes : Nat := 0
   srchReplays : Nat := 0
   srchRelax : Nat := 0
   srchStores : Nat := 0
@@ -335,6 +339,8 @@ def endCase (s : St) : IO St := do
     s ← mismatch s "unparsed case"
     return s
   if s.kind != "mem" then s := { s with dbCases := s.dbCases + 1 }
+  if !s.rhints.isEmpty then s := { s with invHintCases := s.invHintCases + 1 }
+  if s.rhints.any (·.length ≥ 2) then s := { s with invChained := s.invChained + 1 }
   if s.via == "sess" then s := { s with sessCases := s.sessCases + 1 }
   if r.lastHop.isSome || !r.outChans.isEmpty || !r.ignNodes.isEmpty || !r.ignPairs.isEmpty then
     s := { s with restrCases := s.restrCases + 1 }
@@ -506,6 +512,9 @@ def endCase (s : St) : IO St := do
   else
     s ← mismatch s "route line without payload size"
   if s.usesHint then s := { s with hintRoutes := s.hintRoutes + 1 }
+  -- a route that uses a hop hint which is not the last of its route hint
+  if s.rhints.any (fun hs => hs.dropLast.any (fun h => s.hops.any (·.chan == h.chan))) then
+    s := { s with invChainedRoutes := s.invChainedRoutes + 1 }
   if s.samples < 4 && n ≥ 2 then
     IO.println s!"SAMPLE {s.hdr} => total={rt.totalAmt}@{rt.totalTL} {showHops rt.hops}"
     s := { s with samples := s.samples + 1 }
@@ -526,6 +535,7 @@ def step (s : St) (line : String) : IO St := do
       else mismatch s s!"fact {key}: model={v} impl={(kv? rest key).getD "?"}"
     let s ← chk s "riskFactorBillionths" riskFactorBillionths
     let s ← chk s "blockPadding" blockPadding
+    let s ← chk s "hintcap" fakeHopHintCap
     chk s "feeRateParts" feeRateParts
   | "CASE" :: id :: rest =>
     let nat (k : String) : Nat := (kvNat? rest k).getD 0
@@ -544,7 +554,7 @@ def step (s : St) (line : String) : IO St := do
                     find := "",
                     edges := [], routeOk := false, rh := {}, hops := [], hopFees := [],
                     stored := [], probOk := true, relaxDup := false, usesHint := false,
-                    srch := none, evs := [], probBits := none,
+                    srch := none, evs := [], probBits := none, rhints := [],
                     metaLen := nat "meta", probMode := (kvInt? rest "prob").getD 0,
                     badParse := bad, cases := s.cases + 1 }
   | "chan" :: id :: a :: b :: rest =>
@@ -558,6 +568,16 @@ def step (s : St) (line : String) : IO St := do
       return { s with graph := s.graph ++ [⟨id, a, b, cap, p1, p2⟩], hintIds := hs,
                       v2Pols := s.v2Pols + v2, v2OneBit := s.v2OneBit + one }
     | _, _, _, _, _, _ => return { s with badParse := true }
+  | ["rhint", v] =>
+    -- one invoice route hint as given by the payer: chained hop hints
+    let hops := (v.splitOn ",").map fun part =>
+      match (part.splitOn ":").map nat? with
+      | [some a, some id, some b, some rt, some d] => some (⟨a, id, b, rt, d⟩ : HopHint)
+      | _ => none
+    if hops.all (·.isSome) then
+      let hs := hops.filterMap id
+      return { s with rhints := s.rhints ++ [hs], hintIds := hs.map (·.chan) ++ s.hintIds }
+    else return { s with badParse := true }
   | ["bw", id, v] =>
     match nat? id, nat? v with
     | some id, some v =>
@@ -606,7 +626,9 @@ def step (s : St) (line : String) : IO St := do
       return { s with hops := s.hops ++ [⟨c, t, a, tl⟩], hopFees := s.hopFees ++ [fee],
                       usesHint := s.usesHint || s.hintIds.contains c }
     | _, _, _, _, _ => return { s with badParse := true }
-  | ["END"] => endCase s
+  | ["END"] =>
+    -- the topology of invoice route hints is derived from the hint list
+    endCase { s with graph := s.graph ++ routeHintsToChans s.req.target s.rhints }
   | [] => return s
   | _ => mismatch s s!"unparsed line: {line.take 60}"
 
@@ -645,6 +667,9 @@ def main : IO Unit := do
   IO.println s!"STAT routes_via_FindRoute={s.routeCases}"
   IO.println s!"STAT routes_FindRoute_without_edge_replay={s.noEdges}"
   IO.println s!"STAT routes_over_route_hints={s.hintRoutes}"
+  IO.println s!"STAT cases_with_invoice_route_hints={s.invHintCases}"
+  IO.println s!"STAT cases_with_chained_invoice_route_hints={s.invChained}"
+  IO.println s!"STAT routes_over_chained_invoice_route_hints={s.invChainedRoutes}"
   IO.println s!"STAT routes_with_large_metadata={s.metaCases}"
   IO.println s!"STAT routes_payload_within_40_bytes_of_limit={s.payloadTight}"
   IO.println s!"STAT routes_with_distinct_edge_probabilities={s.distinctProb}"
